@@ -4,6 +4,7 @@ import (
 	"context"
 	"fmt"
 	"slices"
+	"sync/atomic"
 	"time"
 
 	amhelp "github.com/pancsta/asyncmachine-go/pkg/helpers"
@@ -157,6 +158,7 @@ func runHelpers(res *core.CaseResult, c core.CaseDesc) {
 		}
 	}
 	runWaits(res, check)
+	runAsync(res, check)
 	// disposed machine: the blocking helpers must still return
 	md, _ := helperMach()
 	md.Dispose()
@@ -404,4 +406,60 @@ func runWaits(res *core.CaseResult, check func(name string, ok bool, what string
 	// reports
 	check("WaitForAll/deadline", late < counted, "WaitForAll(timeout %v) returned nil in %d of %d trials although the second channel closed at %v, after the deadline (control timer fired at %v)",
 		T, late, counted, T*3/2, lateAt)
+}
+
+// runAsync: AddAsync / Add1Async / EvAdd1Async return true exactly when the
+// wait state was activated after the call (several rounds on one machine, so
+// that the wait state's clock is not zero any more; plain and Multi wait
+// states).
+func runAsync(res *core.CaseResult, check func(name string, ok bool, what string, args ...any)) {
+	for _, multi := range []bool{false, true} {
+		var reply atomic.Bool
+		m := am.New(context.Background(), am.Schema{"Req": {Multi: true}, "Done": {Multi: multi}, "Other": {}},
+			&am.Opts{Id: "c20async", DontLogId: true, DontLogStackTrace: true})
+		_, _ = m.HandlersBindMaps(nil, map[string]am.HandlerFinal{
+			"ReqState": func(e *am.Event) {
+				if reply.Load() {
+					go m.Add1("Done", nil)
+				}
+			},
+		})
+		for round := 0; round < 6; round++ {
+			want := round%2 == 0
+			reply.Store(want)
+			before := m.Tick("Done")
+			ctx, cancel := context.WithTimeout(context.Background(), 150*time.Millisecond)
+			if want {
+				cancel()
+				ctx, cancel = context.WithTimeout(context.Background(), 10*time.Second)
+			}
+			var got bool
+			name := []string{"AddAsync", "Add1Async", "EvAdd1Async"}[round%3]
+			ok := guarded(res, name, func() {
+				switch name {
+				case "AddAsync":
+					got = amhelp.AddAsync(ctx, m, "Done", am.S{"Req"})
+				case "Add1Async":
+					got = amhelp.Add1Async(ctx, m, "Done", "Req")
+				default:
+					got = amhelp.EvAdd1Async(ctx, nil, m, "Done", "Req")
+				}
+			})
+			cancel()
+			if !ok {
+				break
+			}
+			after := m.Tick("Done")
+			activated := after > before && am.IsActiveTick(after) || after >= before+2
+			check(name, got == want && (!got || activated), "%s(wait Done, add Req) = %v in round %d (multi=%v): the wait state was activated after the call = %v (tick %d -> %d), a reply was scheduled = %v",
+				name, got, round, multi, activated, before, after, want)
+			// settle and reset for the next round (a plain wait state has to
+			// go inactive to be activated again)
+			time.Sleep(5 * time.Millisecond)
+			if !multi {
+				m.Remove1("Done", nil)
+			}
+		}
+		m.Dispose()
+	}
 }
